@@ -569,7 +569,7 @@ fn c18_read_srv_skeleton() {
     kani::cover!(s.accepted && s.expanded, "RDATA with a decompressed name accepted");
 }
 
-// @harness props=C18 panics=C18,C01 tier=thorough mem=3 t=1800 fn="Rdata::read,Rdata::read_ch_a,helpers::prepare_to_read_rdata,Name::try_from_compressed,name::wire::parse_compressed_name,Rdata::validate"
+// @harness props=C18 panics=C18,C01 tier=quick mem=3 t=1800 fn="Rdata::read,Rdata::read_ch_a,helpers::prepare_to_read_rdata,Name::try_from_compressed,name::wire::parse_compressed_name,Rdata::validate"
 //   bound="type A class CH; ONE message skeleton: 3-octet name pool, then at cursor 3 the RDATA with name field = label + pointer to the pool; RDLENGTH exact; symbolic label contents, fixed fields, trailing octets; unwind 12"
 //   sym="label octets, fixed-field octets" stubs="S7"
 #[kani::proof]
